@@ -61,8 +61,9 @@ type rdResult struct {
 	fn   int
 }
 
-// readerParked reports whether some goroutine is parked in sync.Cond.Wait below (*Pipe).Read.
-func readerParked(buf []byte) bool {
+// parkedReaders counts the goroutines parked in sync.Cond.Wait below (*Pipe).Read.
+func parkedReaders(buf []byte) int {
+	cnt := 0
 	n := runtime.Stack(buf, true)
 	s := buf[:n]
 	for len(s) > 0 {
@@ -78,11 +79,15 @@ func readerParked(buf []byte) bool {
 			continue
 		}
 		if bytes.Contains(g[:nl], []byte("[sync.Cond.Wait")) && bytes.Contains(g, []byte("pipe.(*Pipe).Read")) {
-			return true
+			cnt++
 		}
 	}
-	return false
+	return cnt
 }
+
+// outstanding is the number of Reads outstanding over all pipes of the running case: a reader has
+// settled when it returned or when that many readers are parked.
+var outstanding int
 
 var stackBuf = make([]byte, 1<<16)
 
@@ -99,12 +104,13 @@ func deadline(d time.Duration) time.Duration {
 }
 
 type runner struct {
-	p       *pipe.Pipe
-	fb      *pipe.FixedBuffer
-	pool    *sync.Pool
-	pending chan rdResult // non-nil while a Read is outstanding
-	fnCount int
-	fnMu    sync.Mutex
+	p        *pipe.Pipe
+	fb       *pipe.FixedBuffer
+	pool     *sync.Pool
+	pending  chan rdResult // non-nil while a Read is outstanding
+	released bool
+	fnCount  int
+	fnMu     sync.Mutex
 }
 
 // settle waits until the outstanding reader returned (result, true) or is parked (_, false).
@@ -114,6 +120,7 @@ func (r *runner) settle(tag string) string {
 		select {
 		case res := <-r.pending:
 			r.pending = nil
+			outstanding--
 			if res.err != nil {
 				s := tag + "=err" + codeOf(res.err)
 				if res.fn > 0 {
@@ -124,11 +131,12 @@ func (r *runner) settle(tag string) string {
 			return tag + "=" + vh.Hex(res.data)
 		default:
 		}
-		if readerParked(stackBuf) {
+		if parkedReaders(stackBuf) >= outstanding {
 			// parked; make sure it did not complete in between
 			select {
 			case res := <-r.pending:
 				r.pending = nil
+				outstanding--
 				if res.err != nil {
 					s := tag + "=err" + codeOf(res.err)
 					if res.fn > 0 {
@@ -172,6 +180,7 @@ func (r *runner) cleanup() {
 			hangs++
 		}
 		r.pending = nil
+		outstanding--
 	}
 }
 
@@ -308,9 +317,169 @@ func genStress(r *vh.Rand) string {
 	return fmt.Sprintf("S;cap=%d;data=%s;wc=%s;rc=%s;e=%d", capN, vh.Hex(data), sz(), sz(), r.Intn(4))
 }
 
+func newRunner(fb *pipe.FixedBuffer) *runner {
+	r := &runner{fb: fb}
+	// an empty pool with New: Get returns exactly this FixedBuffer, which we keep a reference to
+	r.pool = &sync.Pool{New: func() interface{} { return pipe.PipeBuffer(r.fb) }}
+	r.p = pipe.NewPipeFromBufferPool(r.pool)
+	return r
+}
+
+// do executes one token on this pipe; ok=false means the op line is malformed.
+func (r *runner) do(t string, shared *sync.Pool) (res string, ok bool) {
+	f := strings.SplitN(t, ":", 2)
+	if len(f) == 1 {
+		f = append(f, "")
+	}
+	switch f[0] {
+	case "w":
+		d, ok := vh.UnHex(f[1])
+		if !ok {
+			return "", false
+		}
+		n, e := r.p.Write(d)
+		ec := "none"
+		if e != nil {
+			ec = codeOf(e)
+		}
+		return fmt.Sprintf("w=%d,%s", n, ec) + r.auto(), true
+	case "c", "cf", "b":
+		code, e := strconv.Atoi(f[1])
+		if e != nil {
+			return "", false
+		}
+		switch f[0] {
+		case "c":
+			r.p.CloseWithError(errOf(code))
+			return "c" + r.auto(), true
+		case "cf":
+			r.p.CloseWithErrorAndCode(errOf(code), func() {
+				r.fnMu.Lock()
+				r.fnCount++
+				r.fnMu.Unlock()
+			})
+			return "c" + r.auto(), true
+		}
+		r.p.BreakWithError(errOf(code))
+		return "b" + r.auto(), true
+	case "rel":
+		r.p.Release(shared)
+		r.released = true
+		return "rel", true
+	case "dis":
+		return "dis=" + strconv.Itoa(r.p.Discard()), true
+	case "r":
+		n, e := strconv.Atoi(f[1])
+		if e != nil || n < 0 || n > 1<<16 {
+			return "", false
+		}
+		if r.pending != nil {
+			return "r=busy", true
+		}
+		ch := make(chan rdResult, 1)
+		r.pending = ch
+		outstanding++
+		go func() {
+			buf := make([]byte, n)
+			r.fnMu.Lock()
+			before := r.fnCount
+			r.fnMu.Unlock()
+			k, e := r.p.Read(buf)
+			r.fnMu.Lock()
+			after := r.fnCount
+			r.fnMu.Unlock()
+			ch <- rdResult{append([]byte(nil), buf[:k]...), e, after - before}
+		}()
+		return r.settle("r"), true
+	case "j":
+		if r.pending == nil {
+			return "j=none", true
+		}
+		return r.settle("j"), true
+	case "e":
+		return "e=" + codeOf(r.p.Err()), true
+	case "d":
+		select {
+		case <-r.p.Done():
+			return "d=closed", true
+		default:
+			return "d=open", true
+		}
+	case "len":
+		// only parked/absent readers exist between scripted steps, so reading Len here is race free
+		if r.released {
+			return "len=nil", true
+		}
+		return "len=" + strconv.Itoa(r.fb.Len()), true
+	}
+	return "", false
+}
+
+// execLifecycle: successive pipes over a pool.  `n:<buf>` creates the next pipe around buffer <buf>
+// (the pool hands out exactly that buffer: sync.Pool.Get is free to return any pooled item, the op line
+// fixes the choice); `<pipe>.<tok>` runs a token on that pipe; `rel` Puts the buffer into a shared pool.
+func execLifecycle(op string) string {
+	toks := strings.Split(op, ";")
+	if len(toks) < 2 || !strings.HasPrefix(toks[1], "caps=") {
+		return "bad-op"
+	}
+	var bufs []*pipe.FixedBuffer
+	for _, c := range strings.Split(toks[1][5:], ".") {
+		n, err := strconv.Atoi(c)
+		if err != nil || n < 0 || n > 1<<16 {
+			return "bad-op"
+		}
+		bufs = append(bufs, pipe.NewFixedBuffer(make([]byte, n)))
+	}
+	state := make([]int, len(bufs)) // 0 never used, 1 owned by a live pipe, 2 in the pool
+	shared := &sync.Pool{}
+	var pipes []*runner
+	var owner []int
+	outstanding = 0
+	defer func() {
+		for _, r := range pipes {
+			r.cleanup()
+		}
+	}()
+	var res []string
+	for _, t := range toks[2:] {
+		if strings.HasPrefix(t, "n:") {
+			b, err := strconv.Atoi(t[2:])
+			if err != nil || b < 0 || b >= len(bufs) || state[b] == 1 {
+				return "bad-op"
+			}
+			state[b] = 1
+			pipes = append(pipes, newRunner(bufs[b]))
+			owner = append(owner, b)
+			res = append(res, "n")
+			continue
+		}
+		f := strings.SplitN(t, ".", 2)
+		if len(f) != 2 {
+			return "bad-op"
+		}
+		i, err := strconv.Atoi(f[0])
+		if err != nil || i < 0 || i >= len(pipes) {
+			return "bad-op"
+		}
+		o, ok := pipes[i].do(f[1], shared)
+		if !ok {
+			return "bad-op"
+		}
+		if f[1] == "rel" {
+			state[owner[i]] = 2
+		}
+		res = append(res, o)
+	}
+	return strings.Join(res, ";")
+}
+
 func exec(op string) (out string) {
 	if strings.HasPrefix(op, "S;") {
 		return execStress(op)
+	}
+	if strings.HasPrefix(op, "L;") {
+		return execLifecycle(op)
 	}
 	toks := strings.Split(op, ";")
 	if len(toks) < 1 || !strings.HasPrefix(toks[0], "cap=") {
@@ -320,102 +489,130 @@ func exec(op string) (out string) {
 	if err != nil || capN < 0 || capN > 1<<16 {
 		return "bad-op"
 	}
-	r := &runner{}
-	r.fb = pipe.NewFixedBuffer(make([]byte, capN))
-	// an empty pool with New: Get returns exactly our FixedBuffer, which we keep a reference to
-	r.pool = &sync.Pool{New: func() interface{} { return pipe.PipeBuffer(r.fb) }}
-	r.p = pipe.NewPipeFromBufferPool(r.pool)
-	released := false
+	outstanding = 0
+	r := newRunner(pipe.NewFixedBuffer(make([]byte, capN)))
 	defer r.cleanup()
 	var res []string
 	for _, t := range toks[1:] {
-		f := strings.SplitN(t, ":", 2)
-		switch f[0] {
-		case "w":
-			d, ok := vh.UnHex(f[1])
-			if !ok {
-				return "bad-op"
-			}
-			n, e := r.p.Write(d)
-			ec := "none"
-			if e != nil {
-				ec = codeOf(e)
-			}
-			res = append(res, fmt.Sprintf("w=%d,%s", n, ec)+r.auto())
-		case "c", "cf", "b":
-			code, e := strconv.Atoi(f[1])
-			if e != nil {
-				return "bad-op"
-			}
-			switch f[0] {
-			case "c":
-				r.p.CloseWithError(errOf(code))
-				res = append(res, "c"+r.auto())
-			case "cf":
-				r.p.CloseWithErrorAndCode(errOf(code), func() {
-					r.fnMu.Lock()
-					r.fnCount++
-					r.fnMu.Unlock()
-				})
-				res = append(res, "c"+r.auto())
-			case "b":
-				r.p.BreakWithError(errOf(code))
-				res = append(res, "b"+r.auto())
-			}
-		case "rel":
-			r.p.Release(r.pool)
-			released = true
-			res = append(res, "rel")
-		case "r":
-			n, e := strconv.Atoi(f[1])
-			if e != nil || n < 0 || n > 1<<16 {
-				return "bad-op"
-			}
-			if r.pending != nil {
-				res = append(res, "r=busy")
-				continue
-			}
-			ch := make(chan rdResult, 1)
-			r.pending = ch
-			go func() {
-				buf := make([]byte, n)
-				r.fnMu.Lock()
-				before := r.fnCount
-				r.fnMu.Unlock()
-				k, e := r.p.Read(buf)
-				r.fnMu.Lock()
-				after := r.fnCount
-				r.fnMu.Unlock()
-				ch <- rdResult{append([]byte(nil), buf[:k]...), e, after - before}
-			}()
-			res = append(res, r.settle("r"))
-		case "j":
-			if r.pending == nil {
-				res = append(res, "j=none")
-				continue
-			}
-			res = append(res, r.settle("j"))
-		case "e":
-			res = append(res, "e="+codeOf(r.p.Err()))
-		case "d":
-			select {
-			case <-r.p.Done():
-				res = append(res, "d=closed")
-			default:
-				res = append(res, "d=open")
-			}
-		case "len":
-			// only the parked/absent reader touches the buffer, so reading Len here is race free
-			if released {
-				res = append(res, "len=nil")
-			} else {
-				res = append(res, "len="+strconv.Itoa(r.fb.Len()))
-			}
-		default:
+		o, ok := r.do(t, r.pool)
+		if !ok {
 			return "bad-op"
 		}
+		res = append(res, o)
 	}
 	return strings.Join(res, ";")
+}
+
+// genLifecycle: 2..4 successive pipes over 1..2 pooled buffers; pipes are mostly released with unread
+// bytes left (or after a Discard), and the next pipe mostly re-uses the buffer just released.
+func genLifecycle(r *vh.Rand) string {
+	nb := r.Range(1, 2)
+	caps := make([]int, nb)
+	cs := make([]string, nb)
+	for i := range caps {
+		caps[i] = []int{1, 2, 3, 4, 8}[r.Intn(5)]
+		cs[i] = strconv.Itoa(caps[i])
+	}
+	var sb strings.Builder
+	sb.WriteString("L;caps=" + strings.Join(cs, "."))
+	state := make([]int, nb) // 0 fresh, 1 live, 2 pooled
+	next := byte(r.Intn(256))
+	npipes := r.Range(2, 4)
+	type live struct{ id, buf, buffered int }
+	var alive []live
+	created := 0
+	for created < npipes || len(alive) > 0 {
+		// maybe create
+		if created < npipes && (len(alive) == 0 || r.Chance(1, 4)) {
+			b := -1
+			for _, cand := range r2perm(r, nb) {
+				if state[cand] == 2 && r.Chance(4, 5) {
+					b = cand
+					break
+				}
+			}
+			if b < 0 {
+				for _, cand := range r2perm(r, nb) {
+					if state[cand] != 1 {
+						b = cand
+						break
+					}
+				}
+			}
+			if b >= 0 {
+				fmt.Fprintf(&sb, ";n:%d", b)
+				state[b] = 1
+				alive = append(alive, live{created, b, 0})
+				created++
+				if r.Chance(1, 2) {
+					fmt.Fprintf(&sb, ";%d.len", created-1)
+				}
+			} else if len(alive) == 0 {
+				break
+			}
+		}
+		if len(alive) == 0 {
+			if created >= npipes {
+				break
+			}
+			continue
+		}
+		k := r.Intn(len(alive))
+		p := &alive[k]
+		capN := caps[p.buf]
+		steps := r.Range(1, 5)
+		for s := 0; s < steps; s++ {
+			switch r.Intn(10) {
+			case 0, 1, 2, 3:
+				n := r.Range(1, capN+1)
+				d := make([]byte, n)
+				for j := range d {
+					d[j] = next
+					next++
+				}
+				fmt.Fprintf(&sb, ";%d.w:%s", p.id, vh.Hex(d))
+				if n > capN-p.buffered {
+					n = capN - p.buffered
+				}
+				p.buffered += n
+			case 4, 5, 6:
+				if p.buffered > 0 {
+					n := r.Range(1, p.buffered)
+					fmt.Fprintf(&sb, ";%d.r:%d", p.id, n)
+					p.buffered -= n
+				} else {
+					fmt.Fprintf(&sb, ";%d.len", p.id)
+				}
+			case 7:
+				fmt.Fprintf(&sb, ";%d.dis", p.id)
+				p.buffered = 0
+			case 8:
+				fmt.Fprintf(&sb, ";%d.len", p.id)
+			default:
+				fmt.Fprintf(&sb, ";%d.c:%d", p.id, r.Intn(3))
+			}
+		}
+		if r.Chance(3, 5) {
+			fmt.Fprintf(&sb, ";%d.rel", p.id)
+			state[p.buf] = 2
+			alive = append(alive[:k], alive[k+1:]...)
+		} else if created >= npipes && r.Chance(1, 3) {
+			alive = append(alive[:k], alive[k+1:]...) // abandoned without Release
+		}
+	}
+	return sb.String()
+}
+
+func r2perm(r *vh.Rand, n int) []int {
+	p := make([]int, n)
+	for i := range p {
+		p[i] = i
+	}
+	for i := n - 1; i > 0; i-- {
+		j := r.Intn(i + 1)
+		p[i], p[j] = p[j], p[i]
+	}
+	return p
 }
 
 // ---- generator: a small shadow of the pipe decides what is worth doing next (it only biases the
@@ -444,6 +641,9 @@ func (s *shadow) deliverable() bool {
 func gen(r *vh.Rand) string {
 	if r.Chance(1, 10) {
 		return genStress(r)
+	}
+	if r.Chance(1, 5) {
+		return genLifecycle(r)
 	}
 	s := &shadow{}
 	s.capN = []int{0, 1, 2, 3, 4, 5, 7, 8, 16}[r.Intn(9)]
@@ -550,7 +750,14 @@ func gen(r *vh.Rand) string {
 		case k < 95:
 			sb.WriteString(";d")
 		default:
-			sb.WriteString(";len")
+			if r.Chance(1, 3) {
+				sb.WriteString(";dis")
+				if !s.released {
+					s.buffered, s.rd, s.wpos = 0, 0, 0
+				}
+			} else {
+				sb.WriteString(";len")
+			}
 		}
 		if s.pending {
 			// the harness lets the (possibly woken) reader run right after every signalling op
@@ -574,7 +781,7 @@ func gen(r *vh.Rand) string {
 func main() {
 	vh.Pre = func(emit func(op string), thorough bool) {
 		// exhaustive tiny schedules over a 2-byte pipe: every sequence of length <= L from a small alphabet
-		alpha := []string{"w:01", "w:0203", "w:040506", "r:1", "r:2", "j", "c:1", "c:0", "b:2", "rel", "len"}
+		alpha := []string{"w:01", "w:0203", "w:040506", "r:1", "r:2", "j", "c:1", "c:0", "b:2", "rel", "len", "dis"}
 		L := 3
 		if thorough {
 			L = 4
